@@ -2,6 +2,7 @@ import Driver.Parse
 import Rio.Model.Pack
 import Rio.Model.Warehouse
 import Rio.Model.Fetch
+import Rio.Model.Cache
 namespace Rio.Driver
 open Rio
 
@@ -113,6 +114,42 @@ def fetchEngine : List String → String
       | .ok (_, a, _) => if s58 a ≠ req then "err " ++ Cat.hashMismatch.tok else "ok"
       | .err c => "err " ++ c.tok
       | .panic _ => "panic"
+    | _, _ => "bad-op"
+  | _ => "bad-op"
+
+def catOfTok (t : String) : Cat :=
+  ([Cat.usage, .whUnavailable, .whUnwritable, .wareNotFound, .wareCorrupt, .hashMismatch, .cancelled, .localCache,
+    .assemblyInvalid, .packInvalid, .inoperablePath, .filterRejection, .rpcBreakdown, .errcatRejection].find? (·.tok = t)).getD .uncategorized
+
+def modeOfTok : String → Option Mode
+  | "direct" => some .direct | "copy" => some .copy | "none" => some .none_ | "mount" => some .mount | _ => none
+
+def showURes : URes → String
+  | .ok rid => "ok:" ++ (String.ofList (rid.map (fun b => Char.ofNat b.toNat)))
+  | .error c => "err:" ++ c.tok
+
+/-- `cache <shelf,shelf|-> <req,alt,mode,ok|err,val;...> <pid,pid,...|->` — ids are plain ASCII tokens -/
+def cacheEngine : List String → String
+  | [shelves, procs, sched] =>
+    let ids (s : String) : Bytes := s.toList.map (fun c => UInt8.ofNat c.toNat)
+    let sh := if shelves = "-" then [] else (shelves.splitOn ",").map ids
+    let ps := (procs.splitOn ";").mapM (fun t => match t.splitOn "," with
+      | [req, alt, mode, yk, yv] => do
+        let m ← modeOfTok mode
+        pure (mkProc (ids req) (alt = "1") m (if yk = "ok" then .ok (ids yv) else .error (catOfTok yv)))
+      | _ => none)
+    let sc := if sched = "-" then some [] else (sched.splitOn ",").mapM (·.toNat?)
+    match ps, sc with
+    | some ps, some sc =>
+      let s := runSchedule (initState ps sh) sc
+      let showId (b : Bytes) := String.ofList (b.map (fun x => Char.ofNat x.toNat))
+      let outs := s.procs.map (fun p => match p.pc with
+        | .done r => showURes r
+        | _ => "blocked")
+      let shs := (s.shelves.map (fun kc => showId kc.1 ++ (match kc.2 with | .complete f => (if f = kc.1 then "=ok" else "=other") | .partial_ => "=partial")))
+      let shsSorted := (sortBy (fun (x : String) => x.toUTF8.toList) shs)
+      let tmps := (s.procs.filter (·.tmp.isSome)).length
+      s!"outs={",".intercalate outs} shelves={",".intercalate shsSorted} tmps={tmps}"
     | _, _ => "bad-op"
   | _ => "bad-op"
 
